@@ -293,9 +293,8 @@ def localize(reg, conds, goal, x, tag="th", solver=None):
     theta = reg.declare("%s!theta" % tag, lo=0, hi=1, lo_strict=False, hi_strict=False)
     xs = tm.add(L, tm.mul(theta, tm.sub(U, L)))
     mp = {x: xs}
-    memo = {}
-    conds_s = [tm.subst(c, mp, memo) for c in conds]
-    goal_s = tm.subst(goal, mp, memo)
+    conds_s = [sc.subst(c, mp) for c in conds]
+    goal_s = sc.subst(goal, mp)
     exact_theta = (conds_s, goal_s, True)
     # abstraction: drop the conjuncts that only bound x (they are implied by theta in [0,1] for the chosen
     # L, U or are redundant bounds), keep the rest.
@@ -315,3 +314,56 @@ def localize(reg, conds, goal, x, tag="th", solver=None):
         forms.append((keep_a + [f(width_pos)] + ab.facts, goal_a))
     forms.append(exact_theta)
     return forms
+
+
+# ----------------------------------------------------------------------------------------------
+# affine re-parametrisation
+
+def _single_var_affine(t):
+    """(c0, c, v) if t is the add node c0 + c*v over one plain variable v."""
+    if t.op != "add":
+        return None
+    c0, items = t.args
+    if len(items) != 1:
+        return None
+    c, b = items[0]
+    if b.op != "var" or b.sort != "R":
+        return None
+    return c0, c, b
+
+
+def reparam(reg, terms, prefix="rp"):
+    """Exact affine change of variables: every variable v that occurs as  c0 + c*v  (most frequent such
+    sub-term) is replaced by (a - c0)/c with a fresh variable a, so that compound quantities such as
+    `min_bin_width + (1 - K*min_bin_width) * softmax_k` become single variables.  Returns (mapping, axioms):
+    the axioms of the replaced variables, translated, must accompany any query that uses the mapping."""
+    count = {}
+    for n in tm.walk(list(terms)):
+        r = _single_var_affine(n)
+        if r is None:
+            continue
+        c0, c, v = r
+        if c0 == 0 and c == 1:
+            continue
+        count.setdefault(v, {})
+        count[v][n] = count[v].get(n, 0) + 1
+    # weight by number of parents: recount references
+    refs = {}
+    for n in tm.walk(list(terms)):
+        for ch in tm.children(n):
+            refs[ch] = refs.get(ch, 0) + 1
+    mapping = {}
+    axioms = []
+    for v, cands in count.items():
+        best = max(cands, key=lambda n: (refs.get(n, 0), -n.id))
+        c0, c, _ = _single_var_affine(best)
+        a = tm.var("%s!%s" % (prefix, v.args[0]))
+        mapping[v] = tm.scale(1 / c, tm.sub(a, tm.const(c0)))
+        s = sc.sign_of(best)
+        if s is not None:
+            reg.sign[a] = s
+    for v in mapping:
+        for ax in reg.var_axioms.get(v, []):
+            axioms.append(ax)
+    axioms = [sc.subst(ax, mapping) for ax in dict.fromkeys(axioms)]
+    return mapping, axioms
